@@ -13,7 +13,11 @@ P = {
          "accepts a list of distinctly named steps iff every depends entry resolves and the dependency relation is acyclic, "
          "for every graph of every size; the model is tied to /repo on every run by a differential run of the real "
          "scheduler.NewExecutionGraph (exhaustive small digraphs + random graphs up to 40 steps) evaluated inside Coq, "
-         "and the implementation's verdict is also checked against an independent statement of the property.",
+         "and the implementation's verdict is also checked against an independent statement of the property; the agent-level clause "
+         "(a refused graph: no step, no handler, nothing recorded) is proved on the agent's action-list model and checked on real in-process "
+         "agent runs (cycle / missing dependency / control), with a watchdog: an admitted cyclic graph that makes the agent hang is a monitor "
+         "failure. Link to the scheduler model: every configuration that passes admission has a rank decreasing along dependencies "
+         "(C14_accepted_graph_wf_deps) and every run of it can be driven to completion from any reachable state (C14_accepted_graph_completes).",
          "Modelled: findStep/addEdge/hasCycle of graph.go and the order of actions of agent.Run. Step names distinct (premise of the property).",
          "Coq proof (Kahn elimination <-> acyclic, induction + pigeonhole) + differential correspondence evaluated by vm_compute",
          "DESIGN.md section 5, C14"),
